@@ -354,3 +354,56 @@ def run_lock(clause):
                     print('REPLAY: not reproduced')
     finally:
         shutil.rmtree(root, ignore_errors=True)
+
+
+def run_function_raises(clause):
+    """The wrapped function raises: the exception must propagate unchanged, nothing may be stored, and the entry's path must be left
+    alone (a process blocked in flock on it would otherwise hold a lock on a file that is no longer the entry)."""
+    import treelog
+    from nutils import cache
+    print('clause:', clause)
+    state = {'fail': True}
+
+    @cache.function
+    def f(a):
+        if state['fail']:
+            raise RuntimeError('boom')
+        return ('value', a)
+    root = _mkdtemp()
+    bad = []
+    try:
+        for planted in (None, b'', b'\x00garbage' * 10):
+            shutil.rmtree(root, ignore_errors=True)
+            os.makedirs(root)
+            state['fail'] = False
+            with cache.enable(root):
+                f(1)
+            names = os.listdir(root)
+            path = os.path.join(root, names[0])
+            if planted is None:
+                os.unlink(path)  # no entry yet
+            else:
+                open(path, 'wb').write(planted)
+            ino = os.stat(path).st_ino if planted is not None else None
+            state['fail'] = True
+            try:
+                with cache.enable(root):
+                    f(1)
+                bad.append('planted=%r: the exception of the wrapped function did not propagate' % (planted,))
+            except RuntimeError:
+                pass
+            except BaseException as e:
+                bad.append('planted=%r: %s instead of the RuntimeError of the wrapped function' % (planted, type(e).__name__))
+            if not os.path.exists(path):
+                bad.append('planted=%r: the cache entry %s was REMOVED after the wrapped function raised (a waiting process now locks an unlinked file)' % (planted, names[0]))
+            elif ino is not None and os.stat(path).st_ino != ino:
+                bad.append('planted=%r: the cache entry was replaced by another file' % (planted,))
+            elif os.path.getsize(path) and planted == b'':
+                bad.append('planted=%r: something was stored although the wrapped function raised' % (planted,))
+            if bad:
+                break
+    finally:
+        shutil.rmtree(root, ignore_errors=True)
+    for b in bad:
+        print(b)
+    print('REPLAY: VIOLATION-CONFIRMED' if bad else 'REPLAY: not reproduced')
